@@ -18,7 +18,7 @@ def run(ctx):
                        "the soft clipper is applied to decoded packets; for concealed/FEC frames both readings (bypassed, or passed through) are accepted",
                        "fixed-point build: the library never soft-clips, the 16-bit relation is demanded with plain saturation; 24-bit samples "
                        "beyond 2^24 are not compared (a float cannot hold them)",
-                       "projection: asserted while no decoded stream sample has exceeded +-1 since creation/reset (R2); ProjTol = 24 (16-bit units)",
+                       "projection: asserted while no decoded stream sample has exceeded +-1 since creation/reset (R2); ProjTol = 8 16-bit units = twice one unit per input channel (4), observed maximum 4",
                        "a decoder object keeps one output format for its life; multistream layouts with bijective mappings",
                        "the projection *encoder* is not part of the encoder identity (its three entry points use different matrix arithmetic and the property does not claim it)"]
     oc.run_check(ctx, "C13")
